@@ -12,7 +12,14 @@ Tie (model vs real code, `config` driver):
     interleavings of add_config_files / set_target_language_configuration_override, C and C++ targets (the C++
     `std` shorthand groups), the CLI's `_create_language_context` (DefaultValue wrapping) in-process and a few real
     `nnvg --list-configuration` runs; sequences of 2-3 builders in one process;
-  * `_validate_language_options` of the C++ language class on random option sets.
+  * `_validate_language_options` of the C++ language class on random option sets;
+  * round 2 (harness/c13_ctx.py, model `Model/ConfigCtx.lean`, theorems `Properties/C13Ctx.lean`): process histories
+    (2-4 builders in one process, override-file PATHS reused with changed content, every context read through every
+    access path - ctx.config, get_target_language(), get_language(x) for target and non-target x,
+    get_supported_languages(), the ln.<lang> / options globals of a real template environment - before and after the
+    lazily built language map exists; a few builders re-run in a fresh process); the C++ shorthand by file / API /
+    command line / for a non-target language; YAML documents as text (null / non-mapping documents and sections, repeated
+    keys, anchors and aliases) with the object-level model.
 Failing-input search: the sub-properties as independent predicates on the real functions (sources unmodified,
 precedence by an independent `pick`, deep union, key-order insensitivity, default never displaces explicit,
 interleaving independence, an earlier context is not changed by later builders).
@@ -1445,19 +1452,24 @@ def run(ctx: common.Ctx):
         ctx.extra["translator"]["langtable"] = "rewritten" if changed else "unchanged"
     except Exception as e:  # noqa
         ctx.broken.append({"kind": "translator", "translator": "langtable", "error": repr(e)})
-    drivers = ctx.prove(["C13"], exes=["config"])
+    drivers = ctx.prove(["C13", "C13Ctx"], exes=["config"])
     drv = drivers.get("config")
     ctx.rule = ("deep_update: every (target, source) pair of the universe {dicts over keys a,b, depth<=2, leaves scalar/DefaultValue(/list)} "
                 "+ sampled two-merge sequences of it + seeded random trees/DAGs/aliased heaps (keys a,b,c, depth<=4, 1-5 merges); "
                 "LanguageConfig.update sequences; real LanguageContextBuilder over YAML files in scratch with random call interleavings "
                 "(c, cpp, py), the CLI's _create_language_context, sequences of 2-3 builders; _validate_language_options on random "
-                "option sets. non-trivial = the merge reaches a non-empty mapping source / the sequence has >= 2 calls; distinct by "
+                "option sets; process histories of 2-4 builders with reused file paths read through every access path; the C++ "
+                "shorthand by file/API/CLI/non-target; YAML texts (corpus + random: nulls, repeated keys, aliases). non-trivial = the merge reaches a non-empty mapping source / the sequence has >= 2 calls; distinct by "
                 "the encoded inputs (heap included where objects are shared)")
     ctx.assumptions = [
         "sources are YAML-like values: str keys; leaves are scalars, DefaultValue(scalar) or lists (lists are opaque leaves)",
         "each source document is a tree (no dict object occurs twice inside one document; documents may share objects)",
         "Python dict = insertion-ordered map without duplicate keys (M.WF); PyYAML's safe_load/safe_dump round-trips the generated documents",
         "ConstructorConvention values in the correspondence are str",
+        "process histories: a builder is not modified after its first create() (same-builder reuse is shared state by design); "
+        "a builder that raised is dropped; the language map visits the sections in configuration order (the code iterates a set)",
+        "YAML syntax (scanner/parser/composer, `<<` merge keys) is PyYAML's; the model starts at the mapping nodes with their "
+        "repeated keys, aliases are compared on the loaded object graph",
     ]
     ctx.exhaustive = False
     rng = ctx.rng
@@ -1472,6 +1484,8 @@ def run(ctx: common.Ctx):
     # round 2 (kept last so that the streams above see the same random numbers as before)
     from . import c13_ctx
     c13_ctx.stream_process_history(ctx, drv, rng)
+    c13_ctx.stream_shorthand_routes(ctx, drv, rng)
+    c13_ctx.stream_yaml_text(ctx, drv, rng)
 
 
 def replay(ctx, path):
@@ -1488,6 +1502,10 @@ def replay(ctx, path):
                           "sources_after": [wire(s) for s in srcs] if not run.cyclic else "cyclic",
                           "failures": [{"key": f["key"], "what": f["what"]} for f in ctx.failures]}))
         return 1 if ctx.failures else 0
+    from . import c13_ctx
+    rc = c13_ctx.replay(ctx, rp)
+    if rc is not None:
+        return rc
     if "defaults" in rp and "options" in rp and "result" in rp:
         print(json.dumps({"note": "C++ shorthand case; re-run the check to re-evaluate", "replay": rp})[:2000])
         return 1
